@@ -191,14 +191,20 @@ def gen_cases(tier, rng):
         yield dict(c, kind="rep-" + c["kind"], rep=["same", "same", "copy", "result"][seed % 4], g0=g0)
 
 
+def _full_model(case):
+    # on 7 nodes the model's own result gets the structural verdict only (the vm_compute spot check of the full verdicts
+    # would take minutes); the implementation's result always gets all six verdicts from the extracted oracle
+    return case["mode"] == 1 and len(case["g"]["V"]) <= 6
+
+
 def encode(case):
-    if case["mode"] == 1:
+    if _full_model(case):
         return [1, gr.enc(case["g"]), gr.enc(case["mag"])]
     return [0, gr.enc(case["g"])]
 
 
 def decode(case, v):
-    if case["mode"] == 1:
+    if _full_model(case):
         return {"m": _graph(v[0]), "verdicts": [bool(x) for x in v[1]]}
     return {"m": _graph(v[0]), "verdicts": [bool(v[1])]}
 
